@@ -41,20 +41,42 @@ def gen_set(rng):
     return {'s': xs}
 
 
-def gen_tree(rng, depth, leaf):
-    """A container tree whose leaves come from leaf(rng)."""
+def gen_tree(rng, depth, leaf, keygen=None):
+    """A container tree whose leaves come from leaf(rng); keygen(rng, k) may replace a
+    plain dict key k by a formattable key (format string, tuple of strings)."""
     r = rng.random()
     if depth <= 0 or r < 0.35:
         return leaf(rng)
     n = rng.randrange(0, 4)
     if r < 0.6:
-        return {'l': [gen_tree(rng, depth - 1, leaf) for _ in range(n)]}
+        return {'l': [gen_tree(rng, depth - 1, leaf, keygen) for _ in range(n)]}
     if r < 0.85:
         keys = rng.sample(['p', 'q', 'r', 'sub', 'k', 'id', 'v'], n)
-        return {'d': [[k, gen_tree(rng, depth - 1, leaf)] for k in keys]}
+        if keygen is not None:
+            keys = [keygen(rng, k) for k in keys]
+        return {'d': [[k, gen_tree(rng, depth - 1, leaf, keygen)] for k in keys]}
     if r < 0.95:
-        return {'t': [gen_tree(rng, depth - 1, leaf) for _ in range(n)]}
+        return {'t': [gen_tree(rng, depth - 1, leaf, keygen) for _ in range(n)]}
     return gen_set(rng)
+
+
+def formattable_keygen(avail, ctxmap):
+    """keys that must be formatted: '{k}' / 'pre-{k}' strings and tuples holding such strings,
+    referencing plain-scalar context keys (so the formatted key stays hashable)."""
+    plain = [k for k in avail if isinstance(ctxmap.get(k), (str, int)) and not isinstance(ctxmap.get(k), bool)
+             and not has_brace(ctxmap.get(k))]
+
+    def keygen(rng, k):
+        r = rng.random()
+        if not plain or r < 0.6:
+            return k
+        ref = '{' + rng.choice(plain) + '}'
+        if r < 0.75:
+            return k + '-' + ref
+        if r < 0.9:
+            return {'t': [ref, k]}
+        return {'t': [k, {'t': [ref + '!', 1]}]}
+    return keygen
 
 
 def esc(lit):
